@@ -8,7 +8,7 @@ use kyrodb_engine::cache_strategy::{
 use kyrodb_engine::coherence::{digest_embedding, VectorCoherenceToken};
 use kyrodb_engine::config::DistanceMetric;
 use kyrodb_engine::learned_cache::{AccessEvent, AccessType, LearnedCachePredictor};
-use kyrodb_engine::proto::{metadata_filter::FilterType, ExactMatch, MetadataFilter};
+use kyrodb_engine::proto::{metadata_filter::FilterType, ExactMatch, MetadataFilter, NotFilter};
 use kyrodb_engine::tiered_engine::{TieredEngine, TieredEngineConfig};
 use kyrodb_engine::training_task::{spawn_training_task, TrainingConfig};
 use kyrodb_engine::{
@@ -68,6 +68,11 @@ fn meta(i: u64) -> HashMap<String, String> {
     m.insert("k0".to_string(), if i % 2 == 0 { "a".to_string() } else { "b".to_string() });
     m.insert("n".to_string(), format!("{}", i % 3));
     m
+}
+/// NOT without an inner filter: accepted by the API (no structural validation), not compilable to a bitmap,
+/// so the index lookup falls back to a full scan
+fn filter_not_empty() -> MetadataFilter {
+    MetadataFilter { filter_type: Some(FilterType::NotFilter(Box::new(NotFilter { filter: None }))) }
 }
 fn filter_k0(val: &str) -> MetadataFilter {
     MetadataFilter {
@@ -208,6 +213,7 @@ fn backend(name: &str, c: BackendCfg) -> Scenario {
     o!(ops, b, "HnswBackend::bulk_fetch", prep |y| y.insert(55, vv(18), meta(2)), |x| x.bulk_fetch(&[55, 999_999]));
     o!(ops, b, "HnswBackend::bulk_fetch_with_coherence", prep |y| y.insert(55, vv(18), meta(2)), |x| x.bulk_fetch_with_coherence(&[55, 999_999]));
     o!(ops, b, "HnswBackend::ids_for_metadata_filter", |x| x.ids_for_metadata_filter(&filter_k0("a")));
+    o!(ops, b, "HnswBackend::ids_for_metadata_filter(scan fallback)", |x| x.ids_for_metadata_filter(&filter_not_empty()));
     o!(ops, b, "HnswBackend::scan", |x| x.scan(|m| m.contains_key("k0")));
     o!(ops, b, "HnswBackend::exists", |x| x.exists(55));
     o!(ops, b, "HnswBackend::len", |x| x.len());
@@ -352,6 +358,7 @@ fn engine(name: &str, c: EngineCfg) -> Scenario {
     o!(ops, e, "TieredEngine::batch_delete", prep |y| { let _ = y.insert(64, v(39), meta(1)); y.insert(65, v(41), meta(2)) }, |x| x.batch_delete(&[64, 65, 999_999]));
     o!(ops, e, "TieredEngine::batch_delete_by_filter", prep |y| y.insert(66, v(42), meta(3)), |x| x.batch_delete_by_filter(|m| m.get("n").map(|s| s == "0").unwrap_or(false)));
     o!(ops, e, "TieredEngine::batch_delete_by_metadata_filter", prep |y| y.insert(67, v(43), meta(4)), |x| x.batch_delete_by_metadata_filter(&filter_k0("a")));
+    o!(ops, e, "TieredEngine::batch_delete_by_metadata_filter(scan fallback)", prep |y| y.insert(68, v(44), meta(5)), |x| x.batch_delete_by_metadata_filter(&filter_not_empty()));
     o!(ops, e, "TieredEngine::knn_search/miss", prep |y| y.insert(61, v(35), meta(1)), |x| x.knn_search(&v(fresh()), 3));
     o!(ops, e, "TieredEngine::knn_search/query-cache-hit", prep |y| { let _ = y.insert(61, v(35), meta(1)); let _ = y.knn_search(&[0.5, 0.5, 0.5, 0.5], 3); }, |x| x.knn_search(&[0.5, 0.5, 0.5, 0.5], 3));
     o!(ops, e, "TieredEngine::knn_search/similarity-hit", prep |y| { let _ = y.insert(61, v(35), meta(1)); let _ = y.knn_search(&[0.5, 0.5, 0.5, 0.5], 3); }, |x| x.knn_search(&[0.5, 0.5, 0.5, 0.5001], 3));
